@@ -89,7 +89,7 @@ def gen_history(rng, w=None, nsteps=(8, 45), final_pairs=True, names_extra=('e',
             out.append(f'RC {j} {rng.randrange(sim.nenc)}'); sim.nenc += 1
         elif op == 'decaps' and sim.nusk and sim.nenc: out.append(f'DE {rng.randrange(sim.nusk)} {rng.randrange(sim.nenc)}')
         elif op == 'ap': out.append(f'AP {x(gen_policy(rng, sim, 3, p_bad=0.1))}')
-        elif op == 'rfbad' and sim.nusk: out.append(f"RFBAD {rng.randrange(sim.nusk)} {rng.choice('01')}")
+        elif op == 'rfbad' and sim.nusk: out.append(f"RFBAD {rng.randrange(sim.nusk)} {rng.choice('01')} {rng.choice('01234')}")
         elif op == 'snap': out.append('SNAP'); sim.nsnap = getattr(sim, 'nsnap', 0) + 1
         elif op == 'restore' and getattr(sim, 'nsnap', 0): out.append(f'REST {rng.randrange(sim.nsnap)}')
         elif op == 'rt':
